@@ -2,6 +2,7 @@
 from __future__ import annotations
 
 import math
+import os
 import random
 import sys
 import types
@@ -97,6 +98,88 @@ def rel(a, b):
     return float(np.max(np.abs(a - b) / (np.abs(b) + 1e-300))) if a.size else 0.0
 
 
+
+class Untranslatable(Exception):
+    pass
+
+
+def _translate_get_mesh():
+    """direct_model.get_mesh / _pop_par_weights of the current tree: which keys each call parameter consumes (plain
+    and dispersible) and that anything left over is refused.  Fail-closed Python-ast walk."""
+    import ast
+    tree = ast.parse(open(os.path.join(common.REPO, "sasmodels", "direct_model.py")).read())
+    fns = {n.name: n for n in tree.body if isinstance(n, ast.FunctionDef)}
+    if "get_mesh" not in fns or "_pop_par_weights" not in fns:
+        raise Untranslatable("get_mesh / _pop_par_weights not found")
+
+    def pops(stmts):
+        out = []
+        for st in stmts:
+            for node in ast.walk(st):
+                if isinstance(node, ast.Call) and ast.unparse(node.func) == "values.pop":
+                    k = node.args[0]
+                    if ast.unparse(k) == "parameter.name":
+                        out.append("")
+                    elif isinstance(k, ast.BinOp) and isinstance(k.op, ast.Add) and ast.unparse(k.left) == "parameter.name" \
+                            and isinstance(k.right, ast.Constant) and isinstance(k.right.value, str):
+                        out.append(k.right.value)
+                    else:
+                        raise Untranslatable("values.pop(%s)" % ast.unparse(k))
+                    if len(node.args) != 2:
+                        raise Untranslatable("values.pop without a default: a missing key would raise")
+        return out
+    fn = fns["_pop_par_weights"]
+    body = [st for st in fn.body if not (isinstance(st, ast.Expr) and isinstance(st.value, ast.Constant))]
+    plain, disp = [], None
+    for st in body:
+        if isinstance(st, ast.If) and ast.unparse(st.test) == "parameter.polydisperse":
+            disp = pops(st.body)
+            if pops(st.orelse):
+                raise Untranslatable("keys consumed for a non-dispersible parameter")
+        elif isinstance(st, ast.If):
+            raise Untranslatable("unexpected branch in _pop_par_weights: %s" % ast.unparse(st.test))
+        else:
+            plain += pops([st])
+    if disp is None:
+        raise Untranslatable("no polydisperse branch")
+    # get_mesh: one _pop_par_weights per call parameter on a COPY of the dictionary, then the leftover test
+    gm = fns["get_mesh"]
+    txt = ast.unparse(gm)
+    if "values = values.copy()" not in txt:
+        raise Untranslatable("get_mesh no longer copies the caller's dictionary")
+    if "for p in parameters.call_parameters" not in txt or "_pop_par_weights(p, values" not in txt:
+        raise Untranslatable("get_mesh does not pop every call parameter")
+    refuses = any(isinstance(st, ast.If) and ast.unparse(st.test) == "values" and len(st.body) == 1 and isinstance(st.body[0], ast.Raise)
+                  for st in gm.body)
+    if not refuses:
+        raise Untranslatable("get_mesh has no 'if values: raise' after popping")
+    return plain, disp
+
+
+def gen():
+    """Regenerate Gen/C10_code.v from the text of direct_model.py (get_mesh, _pop_par_weights)."""
+    lines = ["(* GENERATED by harness/c10.py from sasmodels/direct_model.py: the keys _pop_par_weights consumes for one call parameter *)",
+             "From Coq Require Import String List Bool.", "Import ListNotations.", "From SM Require Import C10.Model.", "Local Open Scope string_scope.", ""]
+    note = None
+    try:
+        plain, disp = _translate_get_mesh()
+    except (Untranslatable, OSError, SyntaxError) as exc:
+        note = "%s: %s" % (type(exc).__name__, exc)
+        plain, disp = None, None
+    lines.append("Definition translated : bool := %s." % ("true" if note is None else "false"))
+    if note:
+        lines.append("(* not translated: %s *)" % note.replace("*)", "* )"))
+    lines.append("")
+    if plain is None:
+        lines.append("Definition code_accepted_for (p : par) : list string := accepted_for p.")
+    else:
+        q = lambda l: "[" + "; ".join(('n ++ "%s"' % x) if x else "n" for x in l) + "]"
+        lines.append("Definition code_accepted_for (p : par) : list string :=\n  let n := fst p in if snd p then %s else %s." % (q(plain + disp), q(plain)))
+    lines.append("")
+    common.write_if_changed(os.path.join(common.THEORIES, "Gen", "C10_code.v"), "\n".join(lines))
+    return note
+
+
 def main(run):
     install_bumps_stub()
     from sasmodels import bumps_model, direct_model, sasview_model, core, weights
@@ -104,7 +187,12 @@ def main(run):
     from sasmodels.direct_model import call_kernel, call_Fq, DirectModel
     rng = random.Random(run.seed * 101 + 10)
     thorough = run.tier == "thorough"
-    run.prove(["C10/Property.v"])
+    note = []
+    run.prove(["C10/Property.v"], gen=lambda: note.append(gen()))
+    if note and note[0]:
+        run.notes.append("get_mesh / _pop_par_weights not translated (%s): the source-text obligation C10_code_accepted is vacuous in this run, the behavioural tie decides" % note[0])
+    else:
+        run.notes.append("the keys consumed by direct_model._pop_par_weights and the leftover test of get_mesh translated from the current direct_model.py (Gen/C10_code.v; C10_code_accepted)")
     names = sas.compiled_model_names() if thorough else [n for n in QUICK]
     if thorough:
         names = list(core.list_models())
